@@ -1,6 +1,7 @@
 #!/usr/bin/env python3
 """seedtest.py <patch.diff> <check ids...>: apply a seeded change to /repo, run the checks, undo it straight afterwards."""
 import subprocess, sys
+import os as _os; _os.environ["VERIF_NO_EVIDENCE"] = "1"   # never let a run against a modified tree rewrite evidence/
 patch, ids = sys.argv[1], sys.argv[2:]
 subprocess.check_call(["git", "-C", "/repo", "apply", patch])
 try:
